@@ -19,6 +19,7 @@ def run(ctx):
     stale(ctx)
     parity(ctx)
     evict(ctx)
+    lagged(ctx)
 
 
 def _mgr(c):
@@ -286,3 +287,10 @@ def _alias_back(b, l):
                         out.add(src)
                         changed = True
     return out
+
+
+def lagged(ctx):
+    """A listener that fell behind the broadcast buffer has lost notifications for good; the only way it can still learn 'every
+    changed key and its final fate' is to be cut off (and re-attach).  Carrying on after Lagged skips keys silently."""
+    from . import C12
+    C12.lag(ctx, rule_id="C14.lag", fns=(C12.FWD_UPD,))
